@@ -99,6 +99,21 @@ inst.sh
 x = inst.left_only() if inst else inst.right_only()
 x
 ''',
+    # a query that executes one function six times (jedi's per-function budget) followed by a
+    # query that needs a seventh execution: per-query reset of the recursion bookkeeping
+    'u:exec-budget': '''\
+def make(v):
+    def handler(a, b=3):
+        return v
+    return handler
+
+
+picked = [make(1), make('s'), make(2.0), make([]), make({}), make(None)][0]
+picked
+make(0j)(1)
+later = make(0j)
+later(
+''',
 }
 
 MENU_SEEDS = [0, 1, 2, 3, 7, 42]
@@ -150,15 +165,22 @@ def query(script, m, line, col):
 PROBE_METHODS = ['infer', 'goto', 'complete', 'help', 'get_references', 'get_signatures']
 
 
+def paren_positions(text):
+    return [(li, ci + 1) for li, ln in enumerate(text.split('\n'), 1)
+            for ci, ch in enumerate(ln) if ch == '(']
+
+
 def battery(script, text, methods=PROBE_METHODS, limit=None):
     out = {}
     pos = ident_positions(text)
     if limit:
-        pos = pos[:limit]
+        pos = pos[:limit] + pos[-limit:]
     for (l, c, e) in pos:
         for m in methods:
             col = e if m == 'complete' else c
             out['%s@%d:%d' % (m, l, col)] = query(script, m, l, col)
+    for (l, c) in paren_positions(text):
+        out['get_signatures@%d:%d' % (l, c)] = query(script, 'get_signatures', l, c)
     return out
 
 
@@ -275,6 +297,9 @@ def _events(text):
     mid = pos[len(pos) // 2]
     last = pos[-1]
     nlines = text.count('\n') + 1
+    lone = [p for p in pos if text.split('\n')[p[0] - 1].strip().isidentifier()]
+    if lone:
+        mid = lone[0]       # a name alone on its line: inferring it runs the whole flow to it
     return [('infer', mid[0], mid[1]), ('complete', last[0], last[2]), ('goto', last[0], last[1]),
             ('get_references', mid[0], mid[1]), ('get_names', None, None),
             ('infer', nlines + 5, 0),                      # raises ValueError
@@ -331,10 +356,25 @@ def menu_child():
     out = {}
     for pid, text in spec['programs']:
         out[pid] = battery(new_script(text, 'menu_%s' % abs(hash(pid))), text)
+    out['interp:type-made-classes'] = interpreter_battery()
     del spec
     json.dump(out, sys.stdout)
     import shutil
     shutil.rmtree(boot.scratch_root(), ignore_errors=True)
+
+
+def interpreter_battery():
+    """Live objects without source positions: instances of type()-created classes in a list."""
+    import jedi
+    names = ['Alpha', 'Beta', 'Gamma', 'Delta', 'Epsilon', 'Zeta', 'Eta', 'Theta', 'Iota', 'Kappa']
+    objs = [type(n, (), {'attr_' + n.lower(): 1})() for n in names]
+    ns = {'objs': objs, 'first': objs[0]}
+    out = {}
+    code = 'for elem in objs:\n    elem\nfirst.\nelem.attr'
+    for m, l, c in [('infer', 2, 5), ('goto', 2, 5), ('complete', 3, 6), ('complete', 4, 9),
+                    ('help', 2, 5)]:
+        out['%s@%d:%d' % (m, l, c)] = query(jedi.Interpreter(code, [ns]), m, l, c)
+    return out
 
 
 def _work_menu(task):
@@ -458,10 +498,10 @@ def run(ctx):
                             ctx.violation(
                                 'differs-between-processes@%s' % q.split('@')[0],
                                 '%s|%s' % (pid, q),
-                                {'program': dict(menu_progs)[pid], 'query': q,
+                                {'program': dict(menu_progs).get(pid), 'query': q,
                                  'seed0': ref[pid][q], 'seed%d_junk%d' % (t['seed'], t['junk']):
                                  r[pid].get(q)},
-                                {'kind': 'menu', 'program': [pid, dict(menu_progs)[pid]],
+                                {'kind': 'menu', 'program': [pid, dict(menu_progs).get(pid, '')],
                                  'seed': t['seed'], 'junk': t['junk'],
                                  'input': '%s|%s' % (pid, q)})
         if pres.skipped or ref is None:
